@@ -251,6 +251,21 @@ func (t *Transport) isSubscribed(ns string) bool {
 	return u != nil && u.active
 }
 
+// subscribedSince: ns was subscribed at some moment between seq and now.
+func (t *Transport) subscribedSince(ns string, seq uint64) bool {
+	t.s.mu.Lock()
+	defer t.s.mu.Unlock()
+	if u := t.subs[ns]; u != nil && u.active {
+		return true
+	}
+	for _, ev := range t.Log {
+		if (ev.Kind == "sub" || ev.Kind == "unsub") && ev.NS == ns && ev.Seq > seq {
+			return true
+		}
+	}
+	return false
+}
+
 func (t *Transport) SendRequest(subj string, payload []byte, cb mq.Response) {
 	s := t.s
 	if len(subj)+inboxLen > maxControlLine {
